@@ -65,7 +65,10 @@ def run(ctx):
         os.makedirs(root)
         mode = reportgen.MODES[t % 5]
         ents = gen_root(rng, root)
-        conf = rr.conf(mode, root)
+        # the root as the configuration spells it: also with trailing slashes (paths are built as "%s/%s")
+        spell = root + rng.choice(["", "", "", "/", "//"])
+        J = lambda n: spell + "/" + n
+        conf = rr.conf(mode, spell)
         # the configuration file itself sits in the root: it is a plain file entry
         ents.append((os.path.basename(conf), "f"))
         # keep-dir cannot be configured (no parser in the grammar): it is always <root>/attic
@@ -81,15 +84,15 @@ def run(ctx):
         lk = rng.random()
         lock = None
         if lk < 0.35 and dirs:
-            lock = (os.path.join(root, rng.choice(dirs)) + "\n").encode()
+            lock = (J(rng.choice(dirs)) + "\n").encode()                     # as robsd writes it: ${ROBSDDIR}/<id>
         elif lk < 0.45:
-            lock = (os.path.join(root, "2020-01-01.1") + "\n").encode()      # stale
+            lock = (J("2020-01-01.1") + "\n").encode()      # stale
         elif lk < 0.55:
             lock = b""
         elif lk < 0.62 and dirs:
-            lock = os.path.join(root, rng.choice(dirs)).encode()             # no newline
+            lock = J(rng.choice(dirs)).encode()             # no newline
         elif lk < 0.7 and dirs:
-            lock = (os.path.join(root, rng.choice(dirs))[:-1] + "\n").encode()  # a prefix of a real name
+            lock = (J(rng.choice(dirs))[:-1] + "\n").encode()  # a prefix of a real name
         if lock is not None:
             with open(os.path.join(root, ".running"), "wb") as f:
                 f.write(lock)
@@ -102,12 +105,12 @@ def run(ctx):
             ctx.violation("robsd-ls: abnormal termination", dict(ents=ents, rc=rc, report=rep))
             continue
         got = [l for l in out.decode().split("\n") if l]
-        reqs.append("ls %s %s %d %s %s" % (hexb(root.encode()), hexb(keep.encode()), 1 if B else 0, "!" if lock is None else hexb(lock),
+        reqs.append("ls %s %s %d %s %s" % (hexb(spell.encode()), hexb(J("attic").encode()), 1 if B else 0, "!" if lock is None else hexb(lock),
                                            ",".join("%s:%s" % (hexb(n.encode()), k) for n, k in ents) or "."))
         obs.append(("%d %s" % (rc, ",".join(hexb(g.encode()) for g in got)), ents))
         kinds["%s%s" % (mode, "-B" if B else "")] = kinds.get("%s%s" % (mode, "-B" if B else ""), 0) + 1
         # oracle: the property itself
-        want = sorted([os.path.join(root, n) for n, k in ents if k == "d" and not n.startswith(".") and os.path.join(root, n) != keep], reverse=True)
+        want = sorted([J(n) for n, k in ents if k == "d" and not n.startswith(".") and n != "attic"], reverse=True)
         if B and lock is not None and b"\n" in lock:
             bd = lock.split(b"\n")[0].decode()
             want = [w for w in want if w != bd]
